@@ -59,9 +59,28 @@ func c07Respell(e string) []string {
 		if strings.HasSuffix(id, "+") {
 			plus, id = "+", id[:len(id)-1]
 		}
-		add(strings.ToLower(id) + plus + exc)
-		add(strings.ToUpper(id) + plus + exc)
-		add(swapCase(id) + plus + exc)
+		// letter case is free for the LISTED part only: a -only / -or-later suffix added to another id is
+		// matched exactly (C09 leaves it outside its claim)
+		listed := func(x string) bool {
+			if _, ok := T().IsActive(x); ok {
+				return true
+			}
+			_, ok := T().IsDepr(x)
+			return ok
+		}
+		base, suf := id, ""
+		if !listed(id) {
+			for _, sx := range []string{"-only", "-or-later"} {
+				if strings.HasSuffix(id, sx) && listed(strings.TrimSuffix(id, sx)) {
+					base, suf = strings.TrimSuffix(id, sx), sx
+				}
+			}
+		}
+		if listed(base) {
+			add(strings.ToLower(base) + suf + plus + exc)
+			add(strings.ToUpper(base) + suf + plus + exc)
+			add(swapCase(base) + suf + plus + exc)
+		}
 		if exc != "" {
 			add(id + plus + " WITH " + strings.ToUpper(exc[6:]))
 		}
@@ -90,6 +109,7 @@ func init() {
 		Title:    "the allowed list behaves as a set and the verdict is monotone in it",
 		Explorer: "E1 bounded-exhaustive expression x allowed-list enumeration, relational oracle between calls (set equality, re-spelling, inclusion)",
 		Rule: "expressions: every tree <= 3 leaves over 7 terms (family-overlapping ids, two references differing only in case) (two renderings coincide semantically; full parenthesisation used); allowed lists: every list of length <= k with repetition over 9 entries (all permutations and duplications of every set of <= k entries); " +
+			"two more spaces over the 5-7 ways of writing one license (x, x+, x-only, x-or-later, x WITH e, x+ WITH e, x WITH f) as terms and as entries; " +
 			"oracles: lists with the same set of entries give the same verdict; replacing an entry by any re-spelling (case, spaces, parentheses, -only, exception case) keeps it; A subset B => (sat(A) => sat(B)) for all enumerated sets; " +
 			"state = (expression, list), one transition each; non-trivial = lists with a repeated entry or more than one ordering (length >= 2) whose verdict is 'true' for at least one and whose expression has >= 2 distinct terms",
 		Assumptions: []string{"differential: no reference model", "X-only as a re-spelling of X relies on C08's equivalence"},
@@ -117,6 +137,13 @@ func c07Run(c *Ctx) {
 	}
 	if !c07Space(c, "same-license-twice", c07DupTerms, c07DupEntries, 2, K+1, false) {
 		return
+	}
+	// every way of writing one license, as terms and as entries (a GNU id and a non-GNU table id)
+	for _, x := range []string{"GPL-2.0", "Apache-1.1"} {
+		v := idVariants(x)
+		if !c07Space(c, "variants-of-"+x, v, v, 2, K, false) {
+			return
+		}
 	}
 	c07Long(c)
 }
